@@ -41,6 +41,7 @@ class Disk:
         self.enospc_left = None  # bytes that still fit, None = unlimited
         self.bad_paths = set()  # files that cannot be written any more (write_fail)
         self.bad_errno = errno.EIO
+        self.open_handles = {}  # absolute path -> number of descriptors the tool holds on it
         self.total_events = 0
         self.log = []  # events of the current operation
         self.counts = {EV_ANY: 0, EV_READ: 0, EV_WRITE: 0, EV_OPEN: 0, EV_STAT: 0}
@@ -109,8 +110,12 @@ class Disk:
                 if cls == EV_STAT and f["at"] == idx_cls:
                     hit = f
             elif k == "mutate":
-                # another process rewrites an input file right before this event: not an error, the operation goes on
-                if f["at"] == idx_any and f.get("_data") is not None:
+                # another process rewrites an input file right before this event: not an error, the operation goes on.
+                # Only at a stat or an open of that very file, at or after the aimed position, while the tool holds no
+                # descriptor on it - earlier faults of the same history may have shifted the positions, and a file
+                # rewritten under an open descriptor gives a torn read no reader can avoid
+                if (idx_any >= f["at"] and f.get("_data") is not None and kind in ("stat", "open_r")
+                        and self.rel(path) == f["rel"] and not self.open_handles.get(os.path.abspath(path))):
                     f["_done"] = True
                     try:
                         with REAL_OPEN(os.path.join(self.root, f["rel"]), "wb") as fh:
@@ -292,6 +297,8 @@ class SimRaw(io.RawIOBase):
         except OSError as exc:
             d._finish(ev, result=errno.errorcode.get(exc.errno, "oserror"))
             raise
+        self._abs = os.path.abspath(path)
+        d.open_handles[self._abs] = d.open_handles.get(self._abs, 0) + 1
         if appending:
             self._pos = os.lseek(self._fd, 0, os.SEEK_END)
 
@@ -436,5 +443,8 @@ class SimRaw(io.RawIOBase):
                     d.log.append(["close", d.rel(self._path), self._pos, 0, None, "ok"])
                 os.close(self._fd)
                 self._fd = -1
+                a = getattr(self, "_abs", None)
+                if a is not None and d.open_handles.get(a):
+                    d.open_handles[a] -= 1
         finally:
             super().close()
